@@ -136,13 +136,48 @@ def run(ctx, rep, findings):
             rep.notes.append("stopped early: time budget")
             break
     l1cases.flush(pending, rep)
+    for i in range(ctx.scale(50, 500)):
+        rc = recipes.persist_case(ctx.rng)
+        k = ctx.rng.randint(2, 3)
+        comps = [c for c in recipes.all_compositions(k) if len(c) > 1]
+        persisted_values_case(rep, rc, k, ctx.rng.choice(comps))
+
+
+def persisted_values_case(rep, rc, k, parts):
+    """Field values of just_once rows read through nickname / table name must be the same in every
+    later iteration and continuation run as in an uninterrupted run."""
+    from . import l2
+
+    a, text = l2.run_real(rc, [k], final_continuation=False)
+    b, _ = l2.run_real(rc, parts, final_continuation=False)
+    case = {"kind": "persist", "ast": rc, "parts": parts, "recipe": text}
+    rep.case({"recipe": text, "parts": parts}, nontrivial=a.outcome == "ok")
+    rep.count("persisted-values:" + a.outcome.split(":")[0])
+    if a.outcome != "ok":
+        return
+    if b.outcome != "ok":
+        rep.violation("C06:just-once-value-unreadable-after-continuation",
+                      f"reading a just_once row's fields fails after a continuation ({(b.error or '')[:160]}); the uninterrupted run completes",
+                      case, "ok", b.error)
+        return
+    ra, rb = l2.canon_rows(a.rows), l2.canon_rows(b.rows)
+    if ra != rb:
+        i = 0
+        while i < min(len(ra), len(rb)) and ra[i] == rb[i]:
+            i += 1
+        rep.violation("C06:just-once-value-changed-after-continuation",
+                      f"row {i} after a continuation {rb[i] if i < len(rb) else None}, uninterrupted {ra[i] if i < len(ra) else None}",
+                      case, ra[i] if i < len(ra) else None, rb[i] if i < len(rb) else None)
 
 
 def replay(case, rep):
+    if case.get("kind") == "persist":
+        persisted_values_case(rep, case["ast"], sum(case["parts"]), case["parts"])
+        return
     l1cases.replay_l1(case, rep, "C06", ORACLES)
 
 
 def shrink(case, signature):
-    if case.get("jo"):
+    if case.get("jo") or case.get("kind") == "persist":
         return case
     return l1cases.shrink_recipe(case, signature, "C06", ORACLES)
